@@ -38,10 +38,66 @@ func isRepoPkgVar(o types.Object) *types.Var {
 	return v
 }
 
+// c17Aliases: locals of the function being scanned that were given a reference (slice, map, pointer, channel) rooted at
+// a package-level variable, e.g. `charMap := asciiMarks[:]`: a write through such a local is a write to the shared state.
+var c17Aliases = map[types.Object]*types.Var{}
+
+func collectAliases(info *types.Info, body *ast.BlockStmt) {
+	c17Aliases = map[types.Object]*types.Var{}
+	for pass := 0; pass < 2; pass++ { // twice: chains of aliases in any textual order
+		ast.Inspect(body, func(n ast.Node) bool {
+			bind := func(l, r ast.Expr) {
+				id := identOf(l)
+				if id == nil || id.Name == "_" {
+					return
+				}
+				o := info.ObjectOf(id)
+				if o == nil || isRepoPkgVar(o) != nil {
+					return
+				}
+				if v := rootPkgVar(info, r); v != nil {
+					if tv, ok := info.Types[r]; ok && aliasKind(tv.Type) {
+						c17Aliases[o] = v
+					}
+				}
+			}
+			switch x := n.(type) {
+			case *ast.AssignStmt:
+				if len(x.Lhs) == len(x.Rhs) {
+					for i := range x.Lhs {
+						bind(x.Lhs[i], x.Rhs[i])
+					}
+				}
+			case *ast.ValueSpec:
+				if len(x.Names) == len(x.Values) {
+					for i := range x.Names {
+						bind(x.Names[i], x.Values[i])
+					}
+				}
+			case *ast.RangeStmt:
+				// for _, e := range pkgSliceOfPointers: e aliases an element
+				if x.Value != nil && x.Tok == token.DEFINE {
+					if v := rootPkgVar(info, x.X); v != nil {
+						if id := identOf(x.Value); id != nil && id.Name != "_" {
+							if o := info.ObjectOf(id); o != nil && aliasKind(o.Type()) {
+								c17Aliases[o] = v
+							}
+						}
+					}
+				}
+			}
+			return true
+		})
+	}
+}
+
 func rootPkgVar(info *types.Info, e ast.Expr) *types.Var {
 	for {
 		switch x := ast.Unparen(e).(type) {
 		case *ast.Ident:
+			if v, ok := c17Aliases[info.ObjectOf(x)]; ok {
+				return v // a local that holds a reference into a package-level variable
+			}
 			return isRepoPkgVar(info.ObjectOf(x))
 		case *ast.SelectorExpr:
 			if v := isRepoPkgVar(info.ObjectOf(x.Sel)); v != nil {
@@ -67,6 +123,14 @@ func rootPkgVar(info *types.Info, e ast.Expr) *types.Var {
 func identOf(e ast.Expr) *ast.Ident {
 	id, _ := ast.Unparen(e).(*ast.Ident)
 	return id
+}
+
+func aliasKind(t types.Type) bool {
+	switch t.Underlying().(type) {
+	case *types.Pointer, *types.Map, *types.Slice, *types.Chan:
+		return true
+	}
+	return false
 }
 
 func mutableKind(t types.Type) bool {
@@ -119,6 +183,7 @@ func ownObligations(c *CheckCtx) error {
 				if fd.Recv == nil && fd.Name.Name == "init" {
 					continue // package initialisation may set up package-level state
 				}
+				collectAliases(info, fd.Body)
 				add := func(v *types.Var, n ast.Node, what string) {
 					sites = append(sites, ownSite{v, p.Fset.Position(n.Pos()), what})
 				}
@@ -134,6 +199,9 @@ func ownObligations(c *CheckCtx) error {
 						}
 					case *ast.AssignStmt:
 						for _, l := range x.Lhs {
+							if id := identOf(l); id != nil && isRepoPkgVar(info.ObjectOf(id)) == nil {
+								continue // (re)binding a local, even one that aliases shared state, writes nothing shared
+							}
 							if v := rootPkgVar(info, l); v != nil {
 								nobl++
 								add(v, l, "assigned (or an element / field of it is stored into)")
@@ -155,6 +223,9 @@ func ownObligations(c *CheckCtx) error {
 						if x.Tok == token.ASSIGN {
 							for _, l := range []ast.Expr{x.Key, x.Value} {
 								if l != nil {
+									if id := identOf(l); id != nil && isRepoPkgVar(info.ObjectOf(id)) == nil {
+										continue
+									}
 									if v := rootPkgVar(info, l); v != nil {
 										nobl++
 										add(v, l, "assigned by a range clause")
